@@ -238,6 +238,12 @@ func readsOn(r *rand.Rand, g *keyGen, target string, full bool, ops *[][]string)
 	add("iter", optTok(r, g), optTok(r, g), incl, asc)
 	add("iterr", optTok(r, g), optTok(r, g), "0", strconv.Itoa(r.Intn(2)))
 	add("iterate")
+	// a callback that asks to stop: after the first element, in the middle, beyond the end
+	for _, api := range []string{"it", "ir", "ii"} {
+		if r.Intn(2) == 0 {
+			add("istop", api, optTok(r, g), optTok(r, g), strconv.Itoa(r.Intn(2)), strconv.Itoa(1+r.Intn(4)))
+		}
+	}
 }
 
 func bookkeeping(r *rand.Rand, g *keyGen, t *track, ops *[][]string) {
